@@ -36,6 +36,13 @@ theorem connect_refused_iff (cfg : BalCfg) (s : Store) (d : AList Int) (n : Node
         · intro h; cases h
         · intro ⟨h1, _, h3, h4⟩; cases h1; subst h3; omega
 
+/-- **a minimum of zero is a minimum**: it refuses exactly the clients that owe something -/
+theorem zero_minimum_refuses_overdrawn (cfg : BalCfg) (s : Store) (d : AList Int) (n : Node) (b : Bal)
+    (hb : spendable s d n.id = .ok b) (hm : cfg.minBalance = some 0) (hh : n.isHost = false)
+    (hneg : b.credit + b.deposit < 0) :
+    onClient cfg s d n = .error (.lowBalance (b.credit + b.deposit) 0) :=
+  (connect_refused_iff cfg s d n b hb _ 0).2 ⟨hm, hh, rfl, hneg⟩
+
 /-- a client at or above the minimum (or with no minimum configured) is accepted at connect -/
 theorem connect_accepted (cfg : BalCfg) (s : Store) (d : AList Int) (n : Node) (b : Bal)
     (hb : spendable s d n.id = .ok b)
